@@ -55,7 +55,10 @@ def connRun (cap : Nat) : Dec → List String → List String → String
       match ofHex arg with
       | none => "bad-op"
       | some bs =>
-        if kind == "D" then connRun cap (discardBlock cap d bs) ops ("d" :: acc)
+        if kind == "D" then
+          match discardBlock cap d bs with
+          | (d', none) => connRun cap d' ops ("d" :: acc)
+          | (d', some e) => " ".intercalate (acc.reverse ++ ["d!" ++ errStr e, "dead", tableStr d'])
         else if kind == "B" then
           let r := decodeBlock cap d bs
           let fs := joinWith "," (r.fields.map fieldStr)
@@ -183,7 +186,8 @@ def outcomeStr : Outcome → String
   | .nothing => "none"
 
 def reqFinish (c : GConn) (acc : List String) : String :=
-  " ".intercalate (acc.reverse ++ [tableStr c.dec, "cid=" ++ toString c.cid,
+  " ".intercalate (acc.reverse ++ [tableStr c.dec,
+    "cid=" ++ (if c.goaway > 0 then "-" else toString c.cid),
     "nd=" ++ toString c.ndisc, "nr=" ++ toString c.nrefused])
 
 def reqRun (cap : Nat) : GConn → List String → List String → String
@@ -198,15 +202,13 @@ def reqRun (cap : Nat) : GConn → List String → List String → String
       | none => "bad-op"
     else if kind == "H" || kind == "h" then
       match ((it.drop 1).toString).splitOn "/" with
-      | id :: es :: _pad :: dep :: frags :: keep :: more =>
+      | id :: es :: _pad :: dep :: frags :: keep :: _ =>
         match id.toNat?, (frags.splitOn "+").mapM ofHex with
         | some id, some fs =>
           let g0 := c.goaway
-          let refuseAt := match more with
-            | [k] => k.toNat?
-            | _ => none
+          -- keep: 0 = stream finished at once, 1 = still tracked, 2 = tracked with announced body missing
           let (c', o) := recvHeaders cap c id (es != "0") (if dep == "-" then none else dep.toNat?)
-            fs.flatten (keep != "0") refuseAt
+            fs.flatten (keep != "0") (keep == "2")
           let tok := outcomeStr o
           if c'.goaway > 0 then reqFinish c' ((tok ++ "!" ++ toString c'.goaway) :: acc)
           else reqRun cap c' rest ((if c'.goaway < 0 ∧ g0 = 0 then tok ++ "~" else tok) :: acc)
